@@ -938,6 +938,12 @@ impl<'a> Message<'a> {
                 }
             })?;
 
+            // nothing at all is allowed after a FINGERPRINT, not even an integrity attribute
+            if seen_ending_attributes.contains(&Fingerprint::TYPE) {
+                warn!("unexpected attribute {} after FINGERPRINT", attr.get_type());
+                return Err(StunParseError::AttributeAfterFingerprint(attr.get_type()));
+            }
+
             // if we have seen any ending attributes, then there is only a fixed set of attributes
             // that are allowed.
             if seen_ending_len > 0 && !ending_attributes.contains(&attr.get_type()) {
